@@ -14,6 +14,7 @@ run (mc/pyxmodel.py):
   * reference model: all paths through every function that touches the reference
     primitives, tracking per scalar local "references taken - released".
 """
+import operator
 import os
 import re
 
@@ -260,6 +261,22 @@ def reference_model(rep, rec, path):
                     '%s: a reference primitive is applied to a pointer that the same path has '
                     'already set to NULL (exit at line %s)' % (where, line),
                     dict(file=name, function=fname, cls=f['cls'], exit=kind, line=line))
+            for k in led:
+                if k.startswith('<shallow>'):
+                    var = k[len('<shallow>'):]
+                    rep.add('shallow_releases')
+                    handed_back = kind == 'ReturnStatNode' and (
+                        detail == var or var in led.get('<returned-through>', ()))
+                    if fname in TRANSFER:
+                        continue        # decref(u, recursive=False): the caller's choice
+                    if not handed_back:
+                        rec('shallow-release:%s:%s' % (name, fname),
+                            '%s: %s is released with the non-recursive primitive although it is '
+                            'not the value handed back on this exit (line %s): if this was the '
+                            'last reference its successors are never released' % (
+                                where, var, line),
+                            dict(file=name, function=fname, cls=f['cls'], exit=kind, line=line,
+                                 variable=var))
             cvars = set(f.get('container_vars', ()))
             scalar = {k: v for k, v in led.items()
                       if '[]' not in k and not k.startswith('<') and
@@ -333,6 +350,102 @@ def wrap_model(rep, rec, path):
             dict(file=name, function='wrap', line=line))
 
 
+FUNCTION_METHODS = {
+    # name -> arity; the meaning is taken from the RUNNING dd.autoref.Function
+    '__invert__': 1, '__and__': 2, '__or__': 2, '__xor__': 2, 'implies': 2, 'equiv': 2,
+    '__eq__': 2, '__ne__': 2, '__le__': 2, '__lt__': 2, '__ge__': 2, '__gt__': 2,
+}
+
+
+def function_operator_model(rep, rec, path, U, m, refs, den):
+    """The operators and connective methods of the wrapper's Function class, interpreted on all
+    operand valuations and compared with the running dd.autoref.Function."""
+    name = os.path.basename(path)
+    try:
+        methods = P.cy_method_irs(path, 'Function')
+        apply_ir = P.cy_apply_ir(path)[0]
+    except Exception as e:  # noqa
+        rep.note('%s: Function methods could not be extracted (%r)' % (name, e))
+        rep.add('uninterpreted')
+        return
+    text = open(path, encoding='utf8').read()
+    interp = P.Interp(P.Model(U), dd._utils.assert_operator_arity, _literal_sets(text))
+    interp.methods = methods
+    interp.apply_ir = apply_ir
+    auto = S.autoref_around(m)
+    fs = sorted(refs)
+    hs = {f: auto._add_int(refs[f]) for f in fs}
+    for meth, arity in FUNCTION_METHODS.items():
+        if meth not in methods:
+            rep.mark('function_methods_absent', '%s: Function.%s' % (name, meth))
+            continue
+        bad = None
+        status = 'agrees'
+        for fu in fs:
+            for fv in (fs if arity == 2 else [None]):
+                try:
+                    got = interp.run_method(meth, fu, fv)
+                except P.Uninterpreted as e:
+                    status = 'uninterpreted'
+                    rep.mark('uninterpreted_constructs', '%s Function.%s: %s' % (name, meth, e))
+                    break
+                except P.Rejected:
+                    status = 'rejected'
+                    break
+                rep.add('evaluations')
+                rep.add('model_transitions')
+                if meth.startswith('__'):
+                    # through the operator (u >= v falls back to v <= u where the running
+                    # class defines no __ge__)
+                    opf = getattr(operator, meth.strip('_') + (
+                        '_' if meth in ('__and__', '__or__') else ''))
+                    r = opf(*([hs[fu], hs[fv]] if arity == 2 else [hs[fu]]))
+                else:
+                    r = getattr(hs[fu], meth)(hs[fv])
+                want = den(r.node) if hasattr(r, 'node') else bool(r)
+                del r
+                if got != want and bad is None:
+                    bad = (fu, fv, got, want)
+                elif fu not in (0, U.full):
+                    rep.add('nontrivial')
+            if status != 'agrees':
+                break
+        rep.mark('function_methods_' + status, '%s: Function.%s' % (name, meth))
+        if status == 'rejected':
+            rec('function-method:%s:%s' % (name, meth),
+                '%s: Function.%s refuses operands of one manager' % (name, meth),
+                dict(file=name, method=meth))
+        if bad is not None:
+            fu, fv, got, want = bad
+
+            def show(x):
+                return U.fmt(x) if isinstance(x, int) and not isinstance(x, bool) else repr(x)
+            rec('function-method:%s:%s' % (name, meth),
+                '%s: Function.%s(%s%s) gives %s where dd.autoref gives %s' % (
+                    name, meth, U.fmt(fu), '' if fv is None else ', ' + U.fmt(fv),
+                    show(got), show(want)),
+                dict(file=name, method=meth, u=U.fmt(fu), v=None if fv is None else U.fmt(fv)))
+    hs.clear()
+
+
+def lifetime_model(rep, rec, path):
+    name = os.path.basename(path)
+    try:
+        bad, n = P.temporary_node_uses(path)
+    except Exception as e:  # noqa
+        rep.note('%s: lifetime scan failed (%r)' % (name, e))
+        rep.add('uninterpreted')
+        return
+    rep.add('evaluations', n)
+    rep.add('assignments_scanned', n)
+    for cls, fname, line, text in bad:
+        rec('temporary-node:%s:%s' % (name, fname),
+            '%s:%s%s line %s: the node of a temporary Function is kept after the Function (and '
+            'the library reference it holds) is gone: %s' % (
+                name, (cls + '.') if cls else '', fname, line, text),
+            dict(file=name, function=fname, cls=cls, line=line))
+
+
 def analyse(which=None):
     rep = run.Report()
     rec = sweep.Rec(rep)
@@ -350,6 +463,8 @@ def analyse(which=None):
         operator_model(rep, rec, path, U, m, refs, den)
         reference_model(rep, rec, path)
         wrap_model(rep, rec, path)
+        lifetime_model(rep, rec, path)
+        function_operator_model(rep, rec, path, U, m, refs, den)
     return rep, n
 
 
